@@ -125,35 +125,31 @@ func c57RunBehaviour(raw []byte) ([]map[string]any, string) {
 		return s.Events(), e
 	}
 
-	outcome := "ok"
-	for i, st := range b.Steps {
-		s.Log(map[string]any{"ev": "at", "t": st.T, "p": st.P})
-		var err error
-		if st.P == "expire" {
+	firedByDriver := map[int]bool{}
+	outcome := gate.RunSteps(s, b.Steps,
+		func(i int, st gate.Step, drifted bool) (bool, error) {
+			if st.P != "expire" {
+				return false, nil
+			}
 			var g int
 			fmt.Sscanf(st.T, "t%d", &g)
 			ent := ents[g]
-			if ent == nil {
-				outcome = fmt.Sprintf("drift: step %d: no entry %d to expire", i, g)
-				break
+			// only a timer that is armed can be fired by the runtime: the entry is in the cache
+			if ent == nil || c.cache["k"] != ent || firedByDriver[g] {
+				if drifted {
+					return true, nil // best-effort continuation: skip
+				}
+				return true, fmt.Errorf("expects an armed timer of entry %d", g)
 			}
+			firedByDriver[g] = true
 			pmu.Lock()
 			pending = st.T
 			pmu.Unlock()
 			s.Log(map[string]any{"ev": "expire", "e": g})
 			ent.timer.Reset(0) // the runtime fires the timer now: f starts in its own goroutine
-			_, err = s.Await(st.T)
-		} else {
-			_, err = s.Step(st.T, st.P)
-		}
-		if err != nil {
-			outcome = gate.StepErr(i, st, err)
-			break
-		}
-		if outcome = gate.CheckExp(i, st, state()); outcome != "ok" {
-			break
-		}
-	}
+			_, err := s.Await(st.T)
+			return true, err
+		}, nil, state)
 	if !s.Join(30*time.Second) || !s.WaitAllGone(30*time.Second) {
 		s.Log(map[string]any{"ev": "stuck"})
 		return s.Events(), outcome + "+stuck-in-free-run"
